@@ -19,8 +19,15 @@ from typing import Any, Dict, Iterable, List, Optional, Sequence, Tuple
 
 VERIF = os.path.dirname(os.path.dirname(os.path.abspath(__file__)))
 REPO = os.environ.get("VERIF_REPO", "/repo")
-COQ = os.path.join(VERIF, "coq")
+REAL_COQ = os.path.join(VERIF, "coq")
 BUILD = os.path.join(VERIF, "build")
+# A run against another checkout (VERIF_REPO=<scratch>, used to test seeded breaking changes)
+# works in its own mirror of coq/ so that its regenerated gen/*.v and .vo files never mix with
+# those of a concurrent run against /repo itself.
+if os.path.realpath(REPO) != os.path.realpath("/repo"):
+    COQ = os.path.join(BUILD, "coq_alt_" + hashlib.sha256(os.path.realpath(REPO).encode()).hexdigest()[:10])
+else:
+    COQ = REAL_COQ
 PY = "/venv/bin/python"
 GUARD = "HIT9_BITPROTO_VERIF"
 NCPU = max(1, min(16, os.cpu_count() or 1))
@@ -61,6 +68,51 @@ def run(cmd: Sequence[str], timeout: int = 600, cwd: Optional[str] = None, env=N
         out = e.stdout.decode() if isinstance(e.stdout, bytes) else (e.stdout or "")
         err = e.stderr.decode() if isinstance(e.stderr, bytes) else (e.stderr or "")
         return 124, out, err + "\nTIMEOUT"
+
+
+class _BuildLock:
+    """Inter-process lock around everything that writes into the Coq workspace (gen/*.v, .vo):
+    concurrent checks may share the workspace; builds are serialised, evaluations are not."""
+    _depth = 0
+    _fh = None
+
+    def __enter__(self):
+        import fcntl
+        cls = _BuildLock
+        if cls._depth == 0:
+            os.makedirs(COQ, exist_ok=True)
+            cls._fh = open(os.path.join(COQ, ".build.lock"), "w")
+            fcntl.flock(cls._fh, fcntl.LOCK_EX)
+        cls._depth += 1
+        return self
+
+    def __exit__(self, *a):
+        import fcntl
+        cls = _BuildLock
+        cls._depth -= 1
+        if cls._depth == 0 and cls._fh is not None:
+            fcntl.flock(cls._fh, fcntl.LOCK_UN)
+            cls._fh.close()
+            cls._fh = None
+        return False
+
+
+def build_lock() -> "_BuildLock":
+    return _BuildLock()
+
+
+def sync_workspace() -> None:
+    """Bring the mirror workspace (runs with VERIF_REPO set) up to date with coq/{theories,props,ref}."""
+    if COQ == REAL_COQ:
+        return
+    with build_lock():
+        if not os.path.isdir(os.path.join(COQ, "theories")):
+            subprocess.run(["cp", "-a", REAL_COQ + "/.", COQ], check=False)
+        subprocess.run(["rsync", "-a", "--delete", "--exclude=gen/", "--exclude=*.vo", "--exclude=*.vok",
+                        "--exclude=*.vos", "--exclude=*.glob", "--exclude=.*.aux", "--exclude=Makefile*",
+                        "--exclude=.Makefile*", "--exclude=_CoqProject", "--exclude=.build.lock",
+                        "--exclude=.lia.cache", "--exclude=.nia.cache",
+                        REAL_COQ + "/", COQ + "/"], check=False)
 
 
 class Broken(Exception):
@@ -154,9 +206,10 @@ def gen_closure(targets: Sequence[str]) -> Optional[List[str]]:
 
 def coq_build(targets: Sequence[str], timeout: int = 1500) -> Tuple[bool, str]:
     """make the given .vo targets (full .vo build, never -vos).  Returns (ok, log)."""
-    coq_makefile()
-    cmd = ["make", f"-j{NCPU}", "-f", "Makefile"] + list(targets)
-    rc, out, err = run(["timeout", str(timeout)] + cmd, cwd=COQ, timeout=timeout + 30)
+    with build_lock():
+        coq_makefile()
+        cmd = ["make", f"-j{NCPU}", "-f", "Makefile"] + list(targets)
+        rc, out, err = run(["timeout", str(timeout)] + cmd, cwd=COQ, timeout=timeout + 30)
     return rc == 0, out + err
 
 
@@ -244,6 +297,14 @@ def cnat(n: int) -> str:
 # The Check object: tier/seed, evidence, violations, known findings
 # --------------------------------------------------------------------------------------
 
+def _reap_stale_case_dirs() -> None:
+    root = os.path.join(BUILD, "cases")
+    for d in os.listdir(root) if os.path.isdir(root) else []:
+        m = re.match(r"^C\d\d\.(\d+)$", d)
+        if m and not os.path.exists(f"/proc/{m.group(1)}"):
+            shutil.rmtree(os.path.join(root, d), ignore_errors=True)
+
+
 class Check:
     def __init__(self, prop: str, tier: str, seed: int, level: str = "proof"):
         self.prop = prop
@@ -260,9 +321,15 @@ class Check:
             "theorems": [], "translated": [], "tie": {}, "distribution": {},
         }
         self.assumptions: List[str] = []
-        self.dir = os.path.join(BUILD, "cases", prop)
+        # one scratch directory per invocation: a quick and a thorough run of the same property
+        # (or runs against different checkouts) may be in flight at the same time
+        self.dir = os.path.join(BUILD, "cases", f"{prop}.{os.getpid()}")
         shutil.rmtree(self.dir, ignore_errors=True)
         os.makedirs(self.dir, exist_ok=True)
+        import atexit
+        atexit.register(shutil.rmtree, self.dir, True)
+        _reap_stale_case_dirs()
+        sync_workspace()
         self.known = load_known(prop)
         import glob as _glob
         for old in _glob.glob(os.path.join(VERIF, "replays", f"{prop}-*.json")):
@@ -291,6 +358,10 @@ class Check:
         and the Print Assumptions output.  Raises Broken when anything fails."""
         if prop_file in getattr(self, "_proved", set()):
             return                      # a later stage of the same check asks again: already done
+        with build_lock():
+            self._prove_locked(prop_file, extra_targets)
+
+    def _prove_locked(self, prop_file: str, extra_targets: Sequence[str] = ()) -> None:
         from translate import regenerate_all
         vo = f"props/{prop_file}o"
         targets = [vo, "theories/Eqb.vo"] + list(extra_targets) + list(getattr(self, "_model_vo", ()))
@@ -346,13 +417,14 @@ class Check:
         except Broken as b:
             self.broken(b)
         # can the executable model still be built?
-        ok, log = coq_build(list(model_vo))
-        if not ok:
-            for f in os.listdir(os.path.join(COQ, "ref")):
-                if f.endswith(".v"):
-                    shutil.copy(os.path.join(COQ, "ref", f), os.path.join(COQ, "gen", f))
+        with build_lock():
             ok, log = coq_build(list(model_vo))
-            self.coverage["tie"]["model_from_reference_translation"] = True
+            if not ok:
+                for f in os.listdir(os.path.join(COQ, "ref")):
+                    if f.endswith(".v"):
+                        shutil.copy(os.path.join(COQ, "ref", f), os.path.join(COQ, "gen", f))
+                ok, log = coq_build(list(model_vo))
+                self.coverage["tie"]["model_from_reference_translation"] = True
         self.model_ok = ok
 
     # ---- violations ----------------------------------------------------------------
